@@ -749,7 +749,16 @@ class Unit:
                 t.edit('R7', 0, 0, 'pub ')
             t.sub_code('R7', r'pub\(crate\)\s*', 'pub ')
             if kind == 'struct':
-                t.sub_code('R7', r'(?m)^(\s+)(?!pub\b)(\w+\s*:)', r'\1pub \2')
+                # only inside the field block (a where clause also has `name: bound` lines)
+                while True:
+                    code = code_mask(t.t)
+                    b0 = next((i for i, ch in enumerate(t.t) if ch == '{' and code[i]), -1)
+                    if b0 < 0:
+                        break
+                    m = re.compile(r'(?m)^(\s+)(?!pub\b)(\w+\s*:)').search(t.t, b0)
+                    if not m:
+                        break
+                    t.edit('R7', m.start(), m.end(), m.group(1) + 'pub ' + m.group(2))
         elif kind in ('const', 'static'):
             t.sub_code('R7', r'pub\(crate\)\s*', 'pub ')
             if not t.t.lstrip().startswith('pub'):
